@@ -68,11 +68,12 @@ def gen(rnd):
             elif t == 'sig':
                 v = rnd.choice(['quit', 'INT', 'SIGTERM', '3', 'sigusr1', 'Hup', '10', 'SIGRTMIN+1'])
             elif k == 'args':
-                v = rnd.choice(['-a ' + val_ref(), 'plain', '$(circus.wid) x', '--name=((circus.env.nosuchvar_zz))'])
+                v = rnd.choice(['-a ' + val_ref(), 'plain', '$(circus.wid) x', '--name=((circus.env.nosuchvar_zz))',
+                                '--tag #7 --colour #ff8800'])     # a '#' inside a value is not a comment
             elif k == 'working_dir':
                 v = rnd.choice(['/tmp', '/tmp/' + val_ref()])
             elif k in ('custom_opt', 'uid_free'):
-                v = rnd.choice(['free', val_ref(), 'with spaces and = sign'])
+                v = rnd.choice(['free', val_ref(), 'with spaces and = sign', 'fg #ff8800'])
             elif k.endswith('.class'):
                 v = 'StdoutStream'
             elif k == 'stdout_stream.filename':
